@@ -1,3 +1,190 @@
-//! Solver harnesses mounted into rs-matter/src/bdx.rs
+//! C17 - bulk-transfer (BDX) messages. Mounted into rs-matter/src/bdx.rs.
 #![allow(unused_imports, dead_code)]
 use super::*;
+use crate::verif_support::*;
+use crate::{vassert, vcover, vok};
+
+fn same(a: &[u8], b: &[u8]) -> bool {
+    if a.len() != b.len() {
+        return false;
+    }
+    let mut i = 0;
+    while i < a.len() {
+        if a[i] != b[i] {
+            return false;
+        }
+        i += 1;
+    }
+    true
+}
+
+fn any_tc() -> TransferControl {
+    TransferControl { version: any_u8() & 0x0f, sender_drive: any_bool(), receiver_drive: any_bool(), async_mode: any_bool() }
+}
+
+fn any_rc() -> RangeControl {
+    RangeControl { def_len: any_bool(), start_offset: any_bool(), wide_range: any_bool() }
+}
+
+/// SendInit / ReceiveInit: every field combination (all 8 range-control forms, designator of
+/// 0..=3 bytes, metadata of 0..=2 bytes) is written and parsed back to the same fields; offsets
+/// and lengths are carried in full when the wide form is chosen and modulo 2^32 otherwise.
+#[cfg_attr(kani, kani::proof)]
+#[cfg_attr(kani, kani::unwind(10))]
+#[cfg_attr(not(kani), test)]
+fn c17_q_bdx_init_write_parse_roundtrip() {
+    let fd: [u8; 3] = any_bytes::<3>();
+    let md: [u8; 2] = any_bytes::<2>();
+    let (fl, ml) = (any_usize(), any_usize());
+    assume(fl <= 3 && ml <= 2);
+    let m = TransferInit {
+        transfer_control: any_tc(),
+        range_control: any_rc(),
+        max_block_size: any_u16(),
+        start_offset: any_u64(),
+        length: any_u64(),
+        file_designator: &fd[..fl],
+        metadata: &md[..ml],
+    };
+    let mut buf = [0u8; 32];
+    let mut wb = WriteBuf::new(&mut buf);
+    vok!(m.write(&mut wb), "init-write-fits");
+    let n = wb.get_tail();
+    let rc = m.range_control;
+    let w = if rc.wide_range { 8 } else { 4 };
+    let want_len = 4 + if rc.start_offset { w } else { 0 } + if rc.def_len { w } else { 0 } + 2 + fl + ml;
+    vassert!(n == want_len, "ROLE:bdx-init-encoded-length");
+    let p = vok!(TransferInit::parse(&buf[..n]), "ROLE-own-encoding-parses");
+    vassert!(p.transfer_control == m.transfer_control && p.range_control == rc, "ROLE:bdx-init-control-bytes-roundtrip");
+    vassert!(p.max_block_size == m.max_block_size, "ROLE:bdx-init-block-size-roundtrip");
+    let so = if !rc.start_offset { 0 } else if rc.wide_range { m.start_offset } else { m.start_offset as u32 as u64 };
+    let ln = if !rc.def_len { 0 } else if rc.wide_range { m.length } else { m.length as u32 as u64 };
+    vassert!(p.start_offset == so, "ROLE:bdx-init-start-offset-roundtrip");
+    vassert!(p.length == ln, "ROLE:bdx-init-length-roundtrip");
+    vassert!(same(p.file_designator, &fd[..fl]), "ROLE:bdx-init-designator-roundtrip");
+    vassert!(same(p.metadata, &md[..ml]), "ROLE:bdx-init-metadata-roundtrip");
+    vcover!(rc.wide_range && rc.start_offset && rc.def_len && fl == 3 && ml == 2);
+    vcover!(!rc.wide_range && rc.start_offset && !rc.def_len);
+}
+
+/// SendInit / ReceiveInit decoder on every byte string <= 24: a value or an error, never a
+/// panic; what parses re-encodes to the same bytes (the reserved control bits, which the
+/// decoder drops, excepted) and the slices handed out lie inside the input.
+#[cfg_attr(kani, kani::proof)]
+#[cfg_attr(kani, kani::unwind(26))]
+#[cfg_attr(not(kani), test)]
+fn c17_q_bdx_init_parse_safe_and_reencode() {
+    let b: [u8; 24] = any_bytes::<24>();
+    let n = any_usize();
+    assume(n <= 24);
+    match TransferInit::parse(&b[..n]) {
+        Ok(p) => {
+            vcover!(n == 24 && p.file_designator.len() == 1);
+            vassert!(n >= 6, "ROLE:bdx-init-shorter-than-fixed-part-refused");
+            let mut buf = [0u8; 32];
+            let mut wb = WriteBuf::new(&mut buf);
+            vok!(p.write(&mut wb), "reencode-fits");
+            let m = wb.get_tail();
+            vassert!(m == n, "ROLE:bdx-init-reencode-same-length");
+            let mut i = 0;
+            while i < n {
+                let mask = if i == 0 { 0x7f } else if i == 1 { 0x13 } else { 0xff };
+                vassert!(buf[i] == b[i] & mask, "ROLE:bdx-init-reencode-same-bytes");
+                i += 1;
+            }
+        }
+        Err(_) => {
+            vcover!(n > 6);
+        }
+    }
+}
+
+/// SendAccept / ReceiveAccept: write then parse gives the same fields, both wire forms.
+#[cfg_attr(kani, kani::proof)]
+#[cfg_attr(kani, kani::unwind(10))]
+#[cfg_attr(not(kani), test)]
+fn c17_q_bdx_accept_write_parse_roundtrip() {
+    let md: [u8; 2] = any_bytes::<2>();
+    let ml = any_usize();
+    assume(ml <= 2);
+    let receive = any_bool();
+    let m = TransferAccept {
+        receive,
+        transfer_control: any_tc(),
+        range_control: any_rc(),
+        max_block_size: any_u16(),
+        length: any_u64(),
+        metadata: &md[..ml],
+    };
+    let mut buf = [0u8; 24];
+    let mut wb = WriteBuf::new(&mut buf);
+    vok!(m.write(&mut wb), "accept-write-fits");
+    let n = wb.get_tail();
+    let p = vok!(TransferAccept::parse(receive, &buf[..n]), "own-encoding-parses");
+    vassert!(p.receive == receive && p.transfer_control == m.transfer_control, "ROLE:bdx-accept-control-roundtrip");
+    vassert!(p.max_block_size == m.max_block_size, "ROLE:bdx-accept-block-size-roundtrip");
+    if receive {
+        let rc = m.range_control;
+        vassert!(p.range_control == rc, "ROLE:bdx-accept-range-control-roundtrip");
+        let ln = if !rc.def_len { 0 } else if rc.wide_range { m.length } else { m.length as u32 as u64 };
+        vassert!(p.length == ln, "ROLE:bdx-accept-length-roundtrip");
+        vcover!(rc.def_len && rc.wide_range);
+    } else {
+        vassert!(p.length == 0 && p.range_control == RangeControl::default(), "ROLE:bdx-send-accept-carries-no-range");
+        vassert!(n == 3 + ml, "ROLE:bdx-send-accept-length");
+    }
+    vassert!(same(p.metadata, &md[..ml]), "ROLE:bdx-accept-metadata-roundtrip");
+}
+
+/// The accept / block / query decoders on every byte string <= 16: value or error, no panic;
+/// fixed-size messages are refused when truncated and their fields are the little-endian
+/// reading of the input.
+#[cfg_attr(kani, kani::proof)]
+#[cfg_attr(kani, kani::unwind(18))]
+#[cfg_attr(not(kani), test)]
+fn c17_q_bdx_small_messages_parse_safe() {
+    let b: [u8; 16] = any_bytes::<16>();
+    let n = any_usize();
+    assume(n <= 16);
+    let s = &b[..n];
+    let ctr = u32::from_le_bytes([b[0], b[1], b[2], b[3]]);
+    match Block::parse(s) {
+        Ok(p) => {
+            vassert!(n >= 4 && p.block_counter == ctr, "ROLE:bdx-block-counter-decoded");
+            vassert!(same(p.data, &b[4..n]), "ROLE:bdx-block-data-is-the-rest");
+        }
+        Err(_) => vassert!(n < 4, "ROLE:bdx-block-well-formed-accepted"),
+    }
+    match BlockQuery::parse(s) {
+        Ok(p) => vassert!(n >= 4 && p.block_counter == ctr, "ROLE:bdx-block-query-decoded"),
+        Err(_) => vassert!(n < 4, "ROLE:bdx-block-query-well-formed-accepted"),
+    }
+    match BlockQueryWithSkip::parse(s) {
+        Ok(p) => {
+            let skip = u64::from_le_bytes([b[4], b[5], b[6], b[7], b[8], b[9], b[10], b[11]]);
+            vassert!(n >= 12 && p.block_counter == ctr && p.bytes_to_skip == skip, "ROLE:bdx-block-query-with-skip-decoded");
+        }
+        Err(_) => vassert!(n < 12, "ROLE:bdx-block-query-with-skip-well-formed-accepted"),
+    }
+    let receive = any_bool();
+    if let Ok(p) = TransferAccept::parse(receive, s) {
+        vcover!(receive && p.range_control.def_len && p.range_control.wide_range);
+        let mut buf = [0u8; 24];
+        let mut wb = WriteBuf::new(&mut buf);
+        vok!(p.write(&mut wb), "reencode-fits");
+        vassert!(wb.get_tail() == n, "ROLE:bdx-accept-reencode-same-length");
+        let mut i = 0;
+        while i < n {
+            let mask = if i == 0 { 0x7f } else if i == 1 && receive { 0x13 } else { 0xff };
+            vassert!(buf[i] == b[i] & mask, "ROLE:bdx-accept-reencode-same-bytes");
+            i += 1;
+        }
+    }
+    // write side of the fixed-size messages
+    let q = BlockQueryWithSkip { block_counter: any_u32(), bytes_to_skip: any_u64() };
+    let mut buf = [0u8; 12];
+    let mut wb = WriteBuf::new(&mut buf);
+    vok!(q.write(&mut wb), "skip-write-fits");
+    let r = vok!(BlockQueryWithSkip::parse(&buf), "skip-own-encoding-parses");
+    vassert!(r == q, "ROLE:bdx-block-query-with-skip-roundtrip");
+}
